@@ -1453,6 +1453,20 @@ impl<'a, M: Matcher, W: WriteColor> StandardImpl<'a, M, W> {
         if self.sink.match_count == 0 {
             return Ok(());
         }
+        // The message can be the only thing printed for this search (every
+        // matching line was suppressed). It then still starts a new block of
+        // output, so it must be preceded by the separator between searches,
+        // as a block printed through `write_search_prelude` would be.
+        let this_search_written = self.wtr().borrow().count() > 0;
+        if !this_search_written {
+            if let Some(ref sep) = *self.config().separator_search {
+                let ever_written = self.wtr().borrow().total_count() > 0;
+                if ever_written {
+                    self.write(sep)?;
+                    self.write_line_term()?;
+                }
+            }
+        }
 
         let bin = self.searcher.binary_detection();
         if let Some(byte) = bin.quit_byte() {
